@@ -86,12 +86,13 @@ Proof.
   - cbn. unfold seg. rewrite Nat.sub_diag. reflexivity.
   - destruct ip as [|b r]; [simpl in H; lia|].
     change (rows_of (a :: b :: r) l) with (seg a b l :: rows_of (b :: r) l).
-    cbn [firstn concat nth].
+    cbn [firstn concat]. change (nth 0 (a :: b :: r) 0) with a.
+    change (nth (S k) (a :: b :: r) 0) with (nth k (b :: r) 0).
     pose proof (mono_step (a :: b :: r) M 0 ltac:(simpl; lia)) as Hab. cbn [nth] in Hab.
     change (monotone (a :: b :: r)) with ((a <=? b) && monotone (b :: r)) in M.
     apply andb_true_iff in M. destruct M as [_ M2].
     change (last (a :: b :: r) 0) with (last (b :: r) 0) in L.
-    rewrite IH by (auto; simpl in *; lia). cbn [nth].
+    rewrite IH by (auto; simpl in *; lia). change (nth 0 (b :: r) 0) with b.
     assert (Hk : nth k (b :: r) 0 <= last (b :: r) 0) by (apply mono_last; [exact M2|simpl in *; lia]).
     assert (Hb : b <= nth k (b :: r) 0).
     { apply (mono_nth_le (b :: r) M2 0 k); [lia|simpl in *; lia]. }
@@ -289,4 +290,18 @@ Proof.
   rewrite (H b Hb i r0 Hin e He).
   - apply eqb_reflx.
   - unfold nonzero_entry in Hnz. destruct (Z.eqb_spec (snd e) 0); [discriminate|assumption].
+Qed.
+
+(* ================================================================ the regression witness *)
+
+Lemma stored_zero_witness :
+  exists A sz, wf A = true /\ to_dense A = [[2; 0]; [0; 4]]%Z /\
+    block_monotone A sz = false /\
+    extract_blocks_unrepaired Numba A sz = Err AssertErr /\
+    extract_blocks_unrepaired Python A sz = Err IndexErr /\
+    extract_blocks Numba A sz = Ok [[[2]]; [[4]]]%Z /\
+    extract_blocks Python A sz = Ok [[[2]]; [[4]]]%Z.
+Proof.
+  exists {| nmaj := 2; nmin := 2; indptr := [0; 1; 3]; indices := [0; 0; 1]; data := [2; 0; 4]%Z |}, [1; 1].
+  vm_compute. repeat split; reflexivity.
 Qed.
